@@ -14,7 +14,7 @@ use lzma_rs::decompress::raw::Lzma2Decoder;
 use lzma_rs::decompress::Options;
 
 const DEC: [&str; 5] = ["lzma_decompress_with_options", "lzma2_decompress", "xz_decompress", "raw LzmaDecoder", "raw Lzma2Decoder"];
-const SRC: [&str; 9] = [
+const SRC: [&str; 10] = [
     "lzma: C08 table cell",
     "lzma: C05 input (flipped / spliced / garbage / liblzma / ...)",
     "lzma2: valid chunk sequence (+ trailing)",
@@ -24,6 +24,7 @@ const SRC: [&str; 9] = [
     "xz: bit-flipped / truncated / extended file",
     "random bytes",
     "a valid file followed by (a prefix of) another valid file of the same kind",
+    "xz: one field wrong (padding bytes, sizes, flags, counts ...), enclosing CRCs recomputed",
 ];
 
 struct Input {
@@ -144,6 +145,24 @@ fn gen(rng: &mut Rng, tier: Tier) -> Input {
                     desc = format!("{} | {}", desc, mutate(rng, &mut data));
                 }
                 return Input { dec: 2, data, options: sut::default_options(), src, desc, raw: None, offsets };
+            }
+            9 => {
+                // invalid only in ONE field, everything that covers it re-sealed: the verdict then
+                // rests on that field's own validation (e.g. a padding scan), which must not depend
+                // on how the reader cuts the input
+                let mut p = XzGenParams::small();
+                p.big_headers = rng.chance(1, 2);
+                let (spec, desc) = gen_xz(rng, &p);
+                let ms = super::c06::field_mutants(&spec);
+                if ms.is_empty() {
+                    continue;
+                }
+                // padding-type fields are the ones validated by scanning: favour them
+                let pads: Vec<&super::c06::Mutant> = ms.iter().filter(|m| m.field.contains("padding")).collect();
+                let m = if !pads.is_empty() && rng.chance(1, 2) { pads[rng.usize_below(pads.len())] } else { &ms[rng.usize_below(ms.len())] };
+                let (data, layout) = m.spec.serialize();
+                let offsets: Vec<usize> = layout.fields.iter().flat_map(|f| [f.start, f.end]).collect();
+                return Input { dec: 2, data, options: sut::default_options(), src, desc: format!("{} | field {} {}", desc, m.field, m.class), raw: None, offsets };
             }
             8 => {
                 // what follows the end of a complete file looks like the start of another
